@@ -136,6 +136,11 @@ pub struct Model {
     pub delete_oldest: bool,
     /// raw tokens handed out so far (index = token_ref)
     pub raw_tokens: Vec<String>,
+    /// (stream, topic, group, client id) -> the partition the member's last poll without a partition id was
+    /// served from: what an offset request of that member without a partition id refers to. Learnt from poll
+    /// responses, forgotten whenever something that may rebalance the group runs.
+    #[serde(skip)]
+    pub member_current: BTreeMap<(u32, u32, u32, u32), u32>,
 }
 
 impl Model {
